@@ -79,45 +79,76 @@ def canon_graph(roots, *, uid="drop", skip_attrs=(), registered=None, extra_obje
             return ("#", i)
         raise Unsupported(f"no canonical form for {type(x)!r}: {x!r}")
 
+    pending_sets = []
     top = tuple(ref(r) for r in roots)
     for e in extra_objects:
         ref(e)
     qi = 0
-    while qi < len(queue):
-        i = queue[qi]
-        qi += 1
-        x = nodes[i]
-        if isinstance(x, list):
-            descs[i] = ("list",) + tuple(ref(e) for e in x)
-        elif isinstance(x, dict):
-            items = [(ref(k), ref(v)) for k, v in x.items()]
-            # keys are atoms / classes / tuples of atoms and functions: their refs
-            # do not depend on visiting order, so sorting by them is canonical
-            items.sort(key=lambda kv: repr(kv[0]))
-            descs[i] = ("dict",) + tuple(items)
-        elif isinstance(x, set):
-            elems = []
-            for e in x:
-                r = ref(e)
-                if r[0] == "#":
-                    raise Unsupported("set of mutable objects has no canonical order")
-                elems.append(r)
-            descs[i] = ("set",) + tuple(sorted(elems, key=repr))
-        else:
-            attrs = []
-            for k in sorted(vars(x)):
-                if k in skip_attrs:
-                    continue
-                v = vars(x)[k]
-                if uid == "drop" and isinstance(x, base.BaseObject) and isinstance(v, int) \
-                        and not isinstance(v, bool) and v == x.uid and v > 2 ** 64:
-                    attrs.append((k, "uid"))          # the attribute that stores the (random) uid
-                else:
-                    attrs.append((k, ref(v)))
-            d = ("obj", type(x).__module__, type(x).__qualname__, tuple(attrs))
-            if registered is not None and isinstance(x, _Vertex):
-                d = d + (("registered", bool(registered(x))),)
-            descs[i] = d
+    while True:
+      if qi >= len(queue):
+        # resolve sets of objects: elements already visited keep their index; elements reachable only
+        # through a set are visited now, in an order fixed by their class name (ties: harness error)
+        progressed = False
+        for si in list(pending_sets):
+            _, atoms, objs = descs[si]
+            unknown = [o for o in objs if id(o) not in ids]
+            if unknown:
+                names = sorted(type(o).__qualname__ for o in unknown)
+                if len(set(names)) != len(names):
+                    raise Unsupported("several objects reachable only through a set: no canonical order")
+                for o in sorted(unknown, key=lambda o: type(o).__qualname__):
+                    ref(o)
+                progressed = True
+                continue
+            descs[si] = ("set",) + atoms + tuple(sorted(("#", ids[id(o)]) for o in objs))
+            pending_sets.remove(si)
+            progressed = True
+        if qi >= len(queue) and not pending_sets:
+            break
+        if not progressed:
+            raise Unsupported("unresolvable set")
+        continue
+      while qi < len(queue):
+          i = queue[qi]
+          qi += 1
+          x = nodes[i]
+          if isinstance(x, list):
+              descs[i] = ("list",) + tuple(ref(e) for e in x)
+          elif isinstance(x, dict):
+              items = [(ref(k), ref(v)) for k, v in x.items()]
+              # keys are atoms / classes / tuples of atoms and functions: their refs
+              # do not depend on visiting order, so sorting by them is canonical
+              items.sort(key=lambda kv: repr(kv[0]))
+              descs[i] = ("dict",) + tuple(items)
+          elif isinstance(x, set):
+              atoms, objs = [], []
+              for e in x:
+                  if isinstance(e, ATOMS) or isinstance(e, (tuple, frozenset, type)):
+                      atoms.append(ref(e))
+                  else:
+                      objs.append(e)
+              if objs:
+                  # a set of mutable objects has no order of its own: it is described by the indices its
+                  # elements get elsewhere in the walk, so it is resolved after everything else
+                  descs[i] = ("set-pending", tuple(sorted(atoms, key=repr)), objs)
+                  pending_sets.append(i)
+              else:
+                  descs[i] = ("set",) + tuple(sorted(atoms, key=repr))
+          else:
+              attrs = []
+              for k in sorted(vars(x)):
+                  if k in skip_attrs:
+                      continue
+                  v = vars(x)[k]
+                  if uid == "drop" and isinstance(x, base.BaseObject) and isinstance(v, int) \
+                          and not isinstance(v, bool) and v == x.uid and v > 2 ** 64:
+                      attrs.append((k, "uid"))          # the attribute that stores the (random) uid
+                  else:
+                      attrs.append((k, ref(v)))
+              d = ("obj", type(x).__module__, type(x).__qualname__, tuple(attrs))
+              if registered is not None and isinstance(x, _Vertex):
+                  d = d + (("registered", bool(registered(x))),)
+              descs[i] = d
     if return_nodes:
         return (top, tuple(descs)), nodes
     return (top, tuple(descs))
